@@ -264,6 +264,103 @@ func c37Case(c *vlib.Ctx, e *c37Env, key []int) map[string]any {
 	return rec
 }
 
+// ---- frame scenarios: MergeConfigurations must yield a fresh value
+
+// c37ListCfg builds a configuration whose two ignore lists are list number i
+// of Config.tla. build 1: slices of exact size; 2: built by incremental
+// appends into a slice with spare capacity; 3: the result of a previous merge
+// (of a spare-capacity default with the list), as `mutagen project start` does.
+func c37ListCfg(i, build int) *synchronization.Configuration {
+	mk := func(list []string) []string {
+		switch build {
+		case 2, 3:
+			out := make([]string, 0, len(list)+6)
+			for _, s := range list {
+				out = append(out, s)
+			}
+			return out
+		}
+		return append([]string(nil), list...)
+	}
+	c := &synchronization.Configuration{DefaultIgnores: mk(c37List["defIgnores"][i-1]), Ignores: mk(c37List["ignores"][i-1])}
+	if build == 3 {
+		empty := &synchronization.Configuration{DefaultIgnores: make([]string, 0, 8), Ignores: make([]string, 0, 8)}
+		return synchronization.MergeConfigurations(empty, c)
+	}
+	return c
+}
+
+func encConfigs(cs []*synchronization.Configuration) []any {
+	out := make([]any, len(cs))
+	for i, c := range cs {
+		out[i] = encConfig(c)
+	}
+	return out
+}
+
+// scribble overwrites every element of the configuration's lists in place and
+// appends to them (which writes into spare capacity, if there is any).
+func scribble(c *synchronization.Configuration, mark string) {
+	for i := range c.DefaultIgnores {
+		c.DefaultIgnores[i] = mark
+	}
+	for i := range c.Ignores {
+		c.Ignores[i] = mark
+	}
+	c.DefaultIgnores = append(c.DefaultIgnores, mark+"+")
+	c.Ignores = append(c.Ignores, mark+"+")
+}
+
+func c37Frame(c *vlib.Ctx, key []int) map[string]any {
+	ks := make([]any, len(key))
+	for i, v := range key {
+		ks[i] = v
+	}
+	hs := []int{key[2], key[3]}
+	if key[4] != 0 {
+		hs = append(hs, key[4])
+	}
+	build := func() (*synchronization.Configuration, []*synchronization.Configuration) {
+		lower := c37ListCfg(key[0], key[1])
+		var highers []*synchronization.Configuration
+		for _, h := range hs {
+			highers = append(highers, c37ListCfg(h, 1))
+		}
+		return lower, highers
+	}
+	rec := map[string]any{"ev": "Frame", "in": map[string]any{"k": ks}}
+	// part A: merge the same lower with every higher, keep all results, read everything again
+	lower, highers := build()
+	rec["lower"], rec["highers"] = encConfig(lower), encConfigs(highers)
+	var results []*synchronization.Configuration
+	first := []any{}
+	for _, h := range highers {
+		r := synchronization.MergeConfigurations(lower, h)
+		results = append(results, r)
+		first = append(first, encConfig(r))
+	}
+	rec["first"] = first
+	rec["after"] = encConfigs(results)
+	rec["lowerAfter"], rec["highersAfter"] = encConfig(lower), encConfigs(highers)
+	// part B: a replica; the owner of result 1 overwrites it, then the owners of the operands overwrite them
+	lower, highers = build()
+	results = nil
+	for _, h := range highers {
+		results = append(results, synchronization.MergeConfigurations(lower, h))
+	}
+	rec["firstB"] = encConfigs(results)
+	scribble(results[0], "R")
+	rec["resMut"] = map[string]any{"lower": encConfig(lower), "highers": encConfigs(highers), "results": encConfigs(results[1:])}
+	scribble(lower, "L")
+	for _, h := range highers {
+		scribble(h, "H")
+	}
+	rec["opMut"] = map[string]any{"results": encConfigs(results[1:])}
+	c.Eval()
+	c.NonTrivial(fmt.Sprint("frame", key))
+	return rec
+}
+
 type textCodec struct {
 	name  string
 	max   int
@@ -379,6 +476,24 @@ func runC37(c *vlib.Ctx) error {
 		}
 	}
 	c.SetExtra("configuration_cases", n)
+	nf0 := 0
+	for lo := 1; lo <= 4; lo++ {
+		for b := 1; b <= 3; b++ {
+			for h1 := 1; h1 <= 4; h1++ {
+				for h2 := 1; h2 <= 4; h2++ {
+					for h3 := 0; h3 <= 4; h3++ {
+						rec := c37Frame(c, []int{lo, b, h1, h2, h3})
+						c.Emit(rec)
+						if nf0 == 333 {
+							c.Sample(rec)
+						}
+						nf0++
+					}
+				}
+			}
+		}
+	}
+	c.SetExtra("frame_scenarios", nf0)
 	for _, t := range c37Codecs() {
 		if t.max >= 0 {
 			for v := 0; v <= t.max+1; v++ {
@@ -413,6 +528,13 @@ func replayC37(c *vlib.Ctx, begin map[string]any) error {
 	}
 	var key []int
 	vlib.Decode(in["k"], &key)
+	if begin["ev"] == "Frame" {
+		if len(key) != 5 || key[0] < 1 || key[0] > 4 || key[1] < 1 || key[1] > 3 || key[2] < 1 || key[2] > 4 || key[3] < 1 || key[3] > 4 || key[4] < 0 || key[4] > 4 {
+			return fmt.Errorf("malformed frame key %v", key)
+		}
+		c.Emit(c37Frame(c, key))
+		return nil
+	}
 	if _, _, _, err := c37Triple(key); err != nil {
 		return err
 	}
